@@ -146,7 +146,8 @@ class Scenario:
                 return inner(y_true, y_pred)
         self.storage = make_storage(cfg["storage"], self.clock, count_get)
         imp = cfg["imputer"]
-        self.defaults = {n: -(j + 1) for j, n in enumerate(self.names)}
+        # odd-indexed features get falsy defaults now and then (0 / False are legal default values)
+        self.defaults = {n: (-(j + 1) if j % 2 == 0 or seed % 3 else [0, False, 0.0][j % 3]) for j, n in enumerate(self.names)}
         if imp in ("joint", "product"):
             real = MarginalImputer(self.model, imp, self.storage)
         elif imp == "default":
